@@ -41,21 +41,35 @@ func hashOf(r *ctypes.ReDKG) string {
 }
 
 func scenarioC20(c *Ctx) {
+	curForged := false
 	fail := func(kind, what string, rep map[string]interface{}) {
+		if curForged {
+			// the dump contains a message the original nodes refused for its signature
+			if rep == nil {
+				rep = map[string]interface{}{}
+			}
+			rep["symptom"] = kind
+			rep["dump"] = "contains a forged decline (garbage signature) that every original node refused"
+			c.Fail(Failure{Property: "C20", Kind: "reinit-replays-unverified-message", Signature: map[string]interface{}{"kind": "reinit-replays-unverified-message"},
+				What: "the dump contains a message the original nodes refused for its signature; the reinitialisation replays it without verification: " + what, Replay: rep})
+			return
+		}
 		c.Fail(Failure{Property: "C20", Kind: kind, Signature: map[string]interface{}{"kind": kind}, What: what, Replay: rep})
 	}
 	type cfg struct {
 		n, t     int
 		adapt    bool
 		withJunk bool
+		forged   bool
 	}
-	cfgs := []cfg{{3, 2, false, true}, {2, 2, true, false}}
+	cfgs := []cfg{{3, 2, false, true, false}, {2, 2, true, false, false}, {3, 2, false, false, true}}
 	if !c.Quick() {
-		cfgs = []cfg{{3, 2, false, true}, {2, 2, true, false}, {4, 3, false, true}, {3, 3, true, true}, {5, 2, false, false}}
+		cfgs = []cfg{{3, 2, false, true, false}, {2, 2, true, false, false}, {4, 3, false, true, false}, {3, 3, true, true, false}, {5, 2, false, false, false}, {3, 2, false, false, true}, {4, 2, true, false, true}}
 	}
 	var sampleFile *ctypes.ReDKG
 	for ci, cf := range cfgs {
 		tag := fmt.Sprintf("c20-%d", ci)
+		curForged = cf.forged
 		// ---- the original ceremony (plus a signing batch and a foreign round's message on the same board) ----
 		A := NewCluster(newEnvDir(c), cf.n, cf.t, tag)
 		A.Propose(0)
@@ -82,7 +96,7 @@ func scenarioC20(c *Ctx) {
 		tasks := []requests.SigningTask{{MessageID: "orig-doc", File: "orig.txt", Payload: []byte("signed before the reinit")}}
 		A.ProposeBatch(0, "orig-batch", tasks)
 		A.RunToQuiescence(func(cands []int) int { return 0 }, nil)
-		B, re, err := startReinit(c, A, tag, cf.withJunk, cf.adapt)
+		B, re, err := startReinit(c, A, tag, cf.withJunk, cf.adapt, cf.forged)
 		if err != nil {
 			fail("reinit-file", err.Error(), nil)
 			A.Close()
@@ -148,6 +162,7 @@ func scenarioC20(c *Ctx) {
 		A.Close()
 		B.Close()
 	}
+	curForged = false
 	// ---- the confirmation hash: every single-field edit of a reinit file ----
 	if sampleFile != nil {
 		base := hashOf(sampleFile)
@@ -219,11 +234,19 @@ func scenarioC20(c *Ctx) {
 // startReinit: the board log of the finished cluster A becomes a reinit file (optionally with a
 // message of another round spliced in, optionally as a 0.1.4-style log through GetAdaptedReDKG);
 // a fresh cluster with the same mnemonics and new communication keys gets the reinit message posted.
-func startReinit(c *Ctx, A *Cluster, tag string, withJunk, adapt bool) (*Cluster, *ctypes.ReDKG, error) {
+func startReinit(c *Ctx, A *Cluster, tag string, withJunk, adapt bool, forgedOpt ...bool) (*Cluster, *ctypes.ReDKG, error) {
+	forged := len(forgedOpt) > 0 && forgedOpt[0]
 	log, _ := A.board().GetMessages(0)
 	if withJunk {
 		junk := storage.Message{DkgRoundID: "some-other-round", Event: "event_sig_proposal_confirm_by_participant", Data: []byte(`{"ParticipantId":0}`), SenderAddr: A.Users[0], Offset: 3}
 		log = append(log[:3], append([]storage.Message{junk}, log[3:]...)...)
+	}
+	if forged && len(log) > 1 {
+		// a forged decline in participant 1's name with a garbage signature, right after the proposal:
+		// it lay on the board and every original node refused it
+		fm := storage.Message{DkgRoundID: log[0].DkgRoundID, Event: "event_sig_proposal_decline_by_participant",
+			Data: []byte(`{"ParticipantId":1,"CreatedAt":"2026-09-25T20:00:00Z"}`), SenderAddr: A.Users[1], Signature: []byte("garbage"), Offset: 1}
+		log = append(log[:1], append([]storage.Message{fm}, log[1:]...)...)
 	}
 	if adapt {
 		var old []storage.Message
